@@ -143,8 +143,13 @@ def decode_chunk_into(chunk, buf, block_size):
         if offset + 8 * gx * gy * gz > len(buf):
             raise InvalidFormatError("compressed_segmentation channel offset "
                                      "is too large (truncated file?)")
+        # Offsets inside a channel are relative to the start of that channel
+        # and may legitimately point anywhere up to the end of the file, so
+        # the channel is not confined to [offset, next_offset): a next_offset
+        # smaller than offset + header size used to leave a buffer too short
+        # for the block headers (struct.error).
         _decode_channel_into(
-            chunk, channel, buf[offset:next_offset], block_size
+            chunk, channel, buf[offset:], block_size
         )
 
     return chunk
